@@ -798,12 +798,15 @@ func (fc *FnCtx) modelCall(st *State, e *ast.CallExpr, fn *types.Func, full stri
 		t := Term{S: fmt.Sprintf("(%s %s)", n, args[0].S), Sort: SStr, T: types.Typ[types.String]}
 		fc.assumeGlobal(b("(>= (strlen %s) 0)", t.S))
 		fc.assumeGlobal(b("(=> (= (strlen %s) 0) (= (strlen %s) 0))", args[0].S, t.S))
+		// idempotent (checked exhaustively over all runes and invalid bytes when this was written; listed as trusted)
+		fc.assumeGlobal(b("(= (%s %s) %s)", n, t.S, t.S))
+		fc.assumptions["strings.ToLower / ToUpper are idempotent"] = true
 		return []Term{t}, true
 	case "time.Now":
 		k := heapKey{"X", "clock"}
 		cur := fc.get(st, k, SInt, nil)
 		nv := fc.freshSort("now", SInt)
-		fc.assume(st, b("(>= %s %s)", nv.S, cur.S))
+		fc.assume(st, b("(and (>= %s %s) (> %s 0))", nv.S, cur.S, nv.S)) // monotone, and after the zero Time
 		fc.set(st, k, nv)
 		return []Term{{S: nv.S, Sort: SInt, T: fn.Type().(*types.Signature).Results().At(0).Type()}}, true
 	case "(time.Time).After":
@@ -822,7 +825,7 @@ func (fc *FnCtx) modelCall(st *State, e *ast.CallExpr, fn *types.Func, full stri
 		k := heapKey{"X", "clock"}
 		cur := fc.get(st, k, SInt, nil)
 		nv := fc.freshSort("now", SInt)
-		fc.assume(st, b("(>= %s %s)", nv.S, cur.S))
+		fc.assume(st, b("(and (>= %s %s) (> %s 0))", nv.S, cur.S, nv.S)) // monotone, and after the zero Time
 		fc.set(st, k, nv)
 		return []Term{{S: fmt.Sprintf("(- %s %s)", nv.S, args[0].S), Sort: SInt, T: fn.Type().(*types.Signature).Results().At(0).Type()}}, true
 	case "(time.Duration).Seconds", "(time.Duration).Minutes", "(time.Duration).Hours", "(time.Duration).Milliseconds":
@@ -849,7 +852,7 @@ func (fc *FnCtx) modelCall(st *State, e *ast.CallExpr, fn *types.Func, full stri
 		k := heapKey{"X", "clock"}
 		cur := fc.get(st, k, SInt, nil)
 		nv := fc.freshSort("now", SInt)
-		fc.assume(st, b("(>= %s %s)", nv.S, cur.S))
+		fc.assume(st, b("(and (>= %s %s) (> %s 0))", nv.S, cur.S, nv.S)) // monotone, and after the zero Time
 		fc.set(st, k, nv)
 		return []Term{{S: fmt.Sprintf("(- %s %s)", args[0].S, nv.S), Sort: SInt, T: fn.Type().(*types.Signature).Results().At(0).Type()}}, true
 	}
